@@ -28,19 +28,22 @@ Section Euler.
             (cscale O ((dt / u) * o_sqrt O (# 1 + (gamma * gamma) * abs2))
                (cadd O (cscale O (eps - abs2) psi) lap)))).
 
-  Record site_mid := { m_z : C; m_w : C; m_c : T; m_s : T; m_w2 : T; m_D : T }.
+  Record site_mid := { m_z : C; m_w : C; m_c : T; m_t : T; m_s : T; m_w2 : T; m_D : T }.
 
+  (* the discriminant (2c+1)^2 - 4|z|^2|w|^2 is evaluated as 1 + 4c - 4t^2 with t = Im(w conj z) (|z|^2|w|^2 = c^2 + t^2):
+     fix F49, no cancellation of the two O(gamma^8) terms *)
   Definition site_mid_of (z w : C) : site_mid :=
     let c := re w * re z + im w * im z in
+    let t := im w * re z - re w * im z in
     let s := # 2 * c + # 1 in
     let w2 := cabs2 O w in
-    let D := s * s - (# 4 * cabs2 O z) * w2 in
-    {| m_z := z; m_w := w; m_c := c; m_s := s; m_w2 := w2; m_D := D |}.
+    let D := (# 1 + # 4 * c) - # 4 * (t * t) in
+    {| m_z := z; m_w := w; m_c := c; m_t := t; m_s := s; m_w2 := w2; m_D := D |}.
 
   (* The code raises inside np.errstate(...) when an intermediate overflows or is
      invalid; modelled as "some intermediate is not finite". *)
   Definition mid_finite (m : site_mid) : bool :=
-    (o_isfin O (re (m_w m)) && o_isfin O (im (m_w m)) && o_isfin O (m_c m)
+    (o_isfin O (re (m_w m)) && o_isfin O (im (m_w m)) && o_isfin O (m_c m) && o_isfin O (m_t m)
      && o_isfin O (m_s m) && o_isfin O (m_w2 m) && o_isfin O (m_D m))%bool.
 
   (* everything after z and w are known.  None = refused *)
